@@ -9,15 +9,15 @@ import math
 
 def instances(tier):
     L = []
-    scales = (0x10000, 0x4000, 0x18000) if tier == "quick" else (0x10000, 0x4000, 0x18000, 0x8000, 0x20000, 0x00001, 0x2aaab)
-    bits = ((1, 0),) if tier == "quick" else ((1, 0), (0, 2), (2, 1))
+    scales = (0x10000, 0x4000, 0x18000) if tier == "quick" else (0x10000, 0x4000, 0x18000, 0x8000, 0x2aaab)
+    bits = ((1, 0),) if tier == "quick" else ((1, 0), (0, 2))
     for rk in KERNELS:
         for sk in KERNELS:
             for sc in scales:
                 w = max(1, math.ceil(KW[rk] + (sc / 65536.0) * KW[sk]))
                 if w > 14:
                     continue
-                if tier == "quick" and sc != 0x10000 and not (rk in POLY and sk in POLY):
+                if sc != 0x10000 and not (rk in POLY and sk in POLY):
                     continue
                 for bx, by in bits:
                     poly = rk in POLY and sk in POLY
